@@ -3,6 +3,7 @@ import CoapVerif.Lemmas.ObserveInv
 import CoapVerif.Lemmas.ObserveRef
 import CoapVerif.Lemmas.ObserveAbsent
 import CoapVerif.Lemmas.ObserveWake
+import CoapVerif.Lemmas.ObserveVer
 /-
 C11 — Observe: registered observers get fresh, ordered notifications until cancelled.
 Property theorems about M (CoapVerif/Model/Observe.lean), which T2 ties to the compiled libcoap on every run.
@@ -417,6 +418,59 @@ example : ∀ y ∈ runStart.res, y.observe < 16777216 := by decide
 example : ((run runStart runEvents).2.filter fun o => isNotif o).map (fun o => (o.obs, o.ver)) =
     [(some 16777215, 1), (some 1, 3), (some 2, 4), (some 3, 5), (some 4, 6), (some 5, 7), (some 6, 8)] := by decide
 example : serialGt 1 16777215 := by decide
+
+/-- the version a resource has in a given state -/
+def verOf (st : State) (rid : Nat) : Nat :=
+  match st.res.find? (fun y => y.id == rid) with
+  | some y => y.ver
+  | none => 0
+
+theorem verOf_spec (st : State) (hid : IdsNodup st) : ∀ y ∈ st.res, verOf st y.id = y.ver := by
+  intro y hy
+  unfold verOf
+  cases hf : st.res.find? (fun z => z.id == y.id) with
+  | none =>
+    have := List.find?_eq_none.mp hf y hy
+    simp at this
+  | some z =>
+    have h1 := List.mem_of_find?_eq_some hf
+    have h2 := List.find?_some hf
+    simp at h2
+    rw [eq_of_id_eq hid h1 hy h2]
+
+/-- observe_strictly_increasing end to end, with the hypothesis on the EVENTS: in a run with fewer than 2^23 change-signalling
+    events (`chg`, `del`) — a fortiori between any two notifications — of any two notifications to the same (session, token,
+    resource) the later one carries the serially greater Observe value.  No ghost quantity in the statement. -/
+theorem observe_strictly_increasing_run_events (st : State) (evs : List Event) (hid : IdsNodup st) (hnd : NoDupSt st)
+    (hobs : ∀ y ∈ st.res, y.observe < 16777216) (hfew : chgTotal evs < 8388608) :
+    (run st evs).2.Pairwise (fun a b => isNotif a = true → isNotif b = true → SameObs a b →
+      ∀ x z, a.obs = some x → b.obs = some z → serialGt z x) := by
+  refine List.Pairwise.imp_of_mem ?_ (observe_strictly_increasing_run st evs hid hnd hobs)
+  intro a b hamem hbmem hR hna hnb hso x z hx hz
+  obtain ⟨hlt, hser⟩ := hR hna hnb hso
+  refine hser x z hx hz ?_
+  -- the resource the two notifications are about, at the end and at the start of the run
+  have hbtag : b.tag = .note := by unfold isNotif at hnb; simp at hnb; exact hnb.1
+  have hatag : a.tag = .note := by unfold isNotif at hna; simp at hna; exact hna.1
+  have hres : b.res ∈ resIds (run st evs).1 := by rw [run_ids]; exact run_notes evs st b hbmem hbtag
+  obtain ⟨y, hy, hyid⟩ := List.mem_map.mp hres
+  obtain ⟨y0, hy0, hid0, hv0⟩ := All2.exists_right (run_verLe evs st hid) y hy
+  have hfb : fromRes y.id b = true := by simp [fromRes, hbtag, hyid]
+  have hfa : fromRes y.id a = true := by simp [fromRes, hatag, hyid, hso.2.2]
+  -- upper bound for b
+  have hord := run_ordInv st evs hid hnd b.c b.token y hy
+  have hbin : b ∈ notifsTo b.c b.token ((run st evs).2.filter (fromRes y.id)) := by
+    unfold notifsTo
+    rw [List.mem_filter, List.mem_filter, List.mem_filter]
+    exact ⟨⟨⟨hbmem, hfb⟩, by simp [toST]⟩, hnb⟩
+  have hub := (hord.bound b hbin).1
+  -- lower bound for a
+  have hlow := run_lowInv st evs hid (verOf st) (fun z hz => by rw [verOf_spec st hid z hz]; exact Nat.le_refl _) y hy
+  have hlb := hlow.outs a (List.mem_filter.mpr ⟨hamem, hfa⟩) hna
+  rw [hid0, verOf_spec st hid y0 hy0] at hlb
+  omega
+
+example : chgTotal runEvents = 8 := by decide
 
 /-- the 2.05 notifications of a run to observation (session c, token tok) of resource rid, in order -/
 def notificationsTo (rid c tok : Nat) (outs : List Out) : List Out := notifsTo c tok (outs.filter (fromRes rid))
